@@ -215,4 +215,6 @@ func genC03(g *Gen) {
 
 	// (4) widening: raw arguments against the debug build (c03raw.go)
 	c03GenRaw(g)
+	// (5) widening: the child rule (c03child.go)
+	c03GenChild(g)
 }
